@@ -49,8 +49,19 @@ func (x *Exec) lockOp(st *State, recv Val, lock bool) {
 				x.oblige(st, "LOCK", "no-self-deadlock("+x.posText(x.curPos)+")", False, "mutex locked while already held")
 			}
 		}
+		reacquired := false
+		for _, l := range st.lockLog {
+			if l == key {
+				reacquired = true
+			}
+		}
 		st.held = append(st.held, key)
 		st.lockLog = append(st.lockLog, key)
+		if reacquired {
+			// between two critical sections of one call other goroutines may
+			// have run theirs: what the mutex guards is unknown again
+			x.havocGuarded(st, recv)
+		}
 		// monitor invariant: whoever held the mutex before left the object's
 		// invariants established (every release is checked, below and at the
 		// exits of the type's own methods)
@@ -96,6 +107,62 @@ func (x *Exec) lockOp(st *State, recv Val, lock bool) {
 		}
 	}
 	x.oblige(st, "LOCK", "unlock-held("+x.posText(x.curPos)+")", False, "unlock of a mutex that is not held")
+}
+
+// havocGuarded forgets the fields guarded by the mutex recv (of the object
+// that holds it; fields of other types guarded by it are forgotten for all
+// objects).
+func (x *Exec) havocGuarded(st *State, recv Val) {
+	if recv.Loc == nil || recv.Loc.Kind != LField {
+		return
+	}
+	named, ok := recv.Loc.ST.(*types.Named)
+	if !ok || named.Obj().Pkg() == nil {
+		return
+	}
+	owner := x.mutexOwner(recv)
+	self := named.Obj().Pkg().Path() + "." + named.Obj().Name() + "."
+	for gk, gv := range x.cs.Guarded {
+		if gv != owner {
+			continue
+		}
+		j := strings.LastIndexByte(gk, '.')
+		if j < 0 {
+			continue
+		}
+		tkey, fname := gk[:j], gk[j+1:]
+		var T types.Type
+		if strings.HasPrefix(gk, self) {
+			T = named
+		} else if k := strings.LastIndexByte(tkey, '.'); k >= 0 {
+			if sp := x.L.spkgs[tkey[:k]]; sp != nil {
+				if tn, ok := sp.Pkg.Scope().Lookup(tkey[k+1:]).(*types.TypeName); ok {
+					T = tn.Type()
+				}
+			}
+		}
+		if T == nil {
+			continue
+		}
+		stt, ok := T.Underlying().(*types.Struct)
+		if !ok {
+			continue
+		}
+		si := x.te.Struct(T)
+		for i := 0; i < stt.NumFields(); i++ {
+			if stt.Field(i).Name() != fname {
+				continue
+			}
+			key, sort := x.fieldComp(si, i)
+			cur := x.heapGet(st, key, sort)
+			if T == types.Type(named) {
+				st.heap[key] = Store(cur, recv.Loc.Base, x.d.Fresh("relock_"+fname, si.FSorts[i]))
+			} else {
+				st.heap[key] = x.d.Fresh("relock_"+fname, sort)
+			}
+		}
+	}
+	x.note("guarded fields forgotten at a second acquisition of %s", owner)
 }
 
 // lockCheck: an access to a guarded_by field must happen with the guarding
